@@ -9,19 +9,18 @@ open Ragc.Gen
 
 section enc
 variable (S : UInt64 → List Nat) (mm : Nat) (hmm : lzHashingStep ≤ mm) (refP : Array Nat)
-    (refLen : Nat) (t : Array Nat) (i pred npl : Nat) (toks : List Tok) (esz : Nat) (xprev : Option UInt64)
+    (refLen : Nat) (t : Array Nat) (i pred npl : Nat) (toks : List Tok) (xprev : Option UInt64)
 
 /-- loop exit (437, 559-566): the remaining symbols become literals. -/
 theorem encLoop_done (h : ¬ i + keyLen mm < t.size) :
-    encLoop S mm hmm refP refLen t i pred npl toks esz xprev = some (tailLits t i toks) := by
+    encLoop S mm hmm refP refLen t i pred npl toks xprev = some (tailLits t i toks) := by
   rw [encLoop, dif_neg h]
 
 /-- N-run step (453-462). -/
 theorem encLoop_nrun (hlt : i + keyLen mm < t.size)
     (hx : nextCode xprev npl t i (keyLen mm) = .invalid) (hn : nrunLen t i ≥ lzMinNRunLen) :
-    encLoop S mm hmm refP refLen t i pred npl toks esz xprev =
-      encLoop S mm hmm refP refLen t (i + nrunLen t i) pred 0 (.nrun (nrunLen t i) :: toks)
-        (esz + (serTok mm (.nrun (nrunLen t i))).length) none := by
+    encLoop S mm hmm refP refLen t i pred npl toks xprev =
+      encLoop S mm hmm refP refLen t (i + nrunLen t i) pred 0 (.nrun (nrunLen t i) :: toks) none := by
   rw [encLoop, dif_pos hlt]
   simp only [hx, dif_pos hn]
 
@@ -29,8 +28,8 @@ theorem encLoop_nrun (hlt : i + keyLen mm < t.size)
 theorem encLoop_lit_invalid {c : Nat} (hlt : i + keyLen mm < t.size)
     (hx : nextCode xprev npl t i (keyLen mm) = .invalid) (hn : ¬ nrunLen t i ≥ lzMinNRunLen)
     (hc : t[i]? = some c) :
-    encLoop S mm hmm refP refLen t i pred npl toks esz xprev =
-      encLoop S mm hmm refP refLen t (i + 1) (pred + 1) (npl + 1) (.lit c :: toks) (esz + 1) none := by
+    encLoop S mm hmm refP refLen t i pred npl toks xprev =
+      encLoop S mm hmm refP refLen t (i + 1) (pred + 1) (npl + 1) (.lit c :: toks) none := by
   rw [encLoop, dif_pos hlt]
   simp only [hx, dif_neg hn, hc]
 
@@ -38,8 +37,8 @@ theorem encLoop_lit_invalid {c : Nat} (hlt : i + keyLen mm < t.size)
 theorem encLoop_lit_nomatch {code : UInt64} {c : Nat} (hlt : i + keyLen mm < t.size)
     (hx : nextCode xprev npl t i (keyLen mm) = .ok code)
     (hf : findBest mm refP t code i npl (S code) = .noMatch) (hc : t[i]? = some c) :
-    encLoop S mm hmm refP refLen t i pred npl toks esz xprev =
-      encLoop S mm hmm refP refLen t (i + 1) (pred + 1) (npl + 1) (.lit c :: toks) (esz + 1) (some code) := by
+    encLoop S mm hmm refP refLen t i pred npl toks xprev =
+      encLoop S mm hmm refP refLen t (i + 1) (pred + 1) (npl + 1) (.lit c :: toks) (some code) := by
   rw [encLoop, dif_pos hlt]
   simp only [hx]
   split
@@ -51,13 +50,12 @@ theorem encLoop_lit_nomatch {code : UInt64} {c : Nat} (hlt : i + keyLen mm < t.s
 theorem encLoop_found {code : UInt64} {mpos bck fwd : Nat} (hlt : i + keyLen mm < t.size)
     (hx : nextCode xprev npl t i (keyLen mm) = .ok code)
     (hf : findBest mm refP t code i npl (S code) = .found mpos bck fwd) :
-    encLoop S mm hmm refP refLen t i pred npl toks esz xprev =
+    encLoop S mm hmm refP refLen t i pred npl toks xprev =
       encLoop S mm hmm refP refLen t (i - bck + (bck + fwd)) (mpos - bck + (bck + fwd)) 0
         (Tok.mtch (((mpos - bck : Nat) : Int) - ((pred - bck : Nat) : Int))
             (matchLenField refLen t.size (i - bck) (bck + fwd) mpos fwd)
-          :: rewriteBang refP (mpos - bck) (pred - bck) (esz - bck) (toks.drop bck))
-        (esz - bck + (serTok mm (Tok.mtch (((mpos - bck : Nat) : Int) - ((pred - bck : Nat) : Int))
-            (matchLenField refLen t.size (i - bck) (bck + fwd) mpos fwd))).length) (some code) := by
+          :: rewriteBang refP (mpos - bck) (pred - bck) (encLen mm (toks.drop bck)) (toks.drop bck))
+        (some code) := by
   rw [encLoop, dif_pos hlt]
   simp only [hx]
   split
@@ -75,7 +73,7 @@ end enc
 theorem encodeToks_loop (S : UInt64 → List Nat) (mm : Nat) (ref tgt : List Nat) (hmm : lzHashingStep ≤ mm)
     (hne : ¬ (tgt.length = ref.length ∧ (tgt.zip (padRef mm ref).toList).all (fun p => p.1 == p.2) = true)) :
     encodeToks S mm ref tgt =
-      (encLoop S mm hmm (padRef mm ref) ref.length tgt.toArray 0 0 0 [] 0 none).map List.reverse := by
+      (encLoop S mm hmm (padRef mm ref) ref.length tgt.toArray 0 0 0 [] none).map List.reverse := by
   unfold encodeToks
   rw [dif_pos hmm, if_neg hne]
 
